@@ -10,7 +10,7 @@ Lov(c) == MulSmall(FromSmall(2000000), c)
 Pool == { [op |-> "AddInput", id |-> 1, c |-> 3, a |-> 0], [op |-> "AddInput", id |-> 2, c |-> 2500, a |-> 5], [op |-> "AddInput", id |-> 3, c |-> 1, a |-> 0],
           [op |-> "AddOutput", id |-> 1, c |-> 1, a |-> 0], [op |-> "AddOutput", id |-> 2, c |-> 2, a |-> 2],
           [op |-> "Deposit", c |-> 1, a |-> 0], [op |-> "Refund", c |-> 1, a |-> 0], [op |-> "Withdraw", c |-> 1, a |-> 0],
-          [op |-> "Mint", c |-> 0, a |-> 3], [op |-> "Burn", c |-> 0, a |-> 2], [op |-> "Donate", c |-> 1, a |-> 0] }
+          [op |-> "Mint", c |-> 0, a |-> 3], [op |-> "Burn", c |-> 0, a |-> 2], [op |-> "MintOut", c |-> 1, a |-> 4], [op |-> "Donate", c |-> 1, a |-> 0] }
 Asset(q) == IF q = 0 THEN <<>> ELSE <<[mp |-> 9, n |-> <<66>>, q_n |-> B(FromSmall(q))]>>
 JOp(o) ==
   CASE o.op = "AddInput"  -> [op |-> "AddInput", u |-> o.id]
@@ -20,16 +20,16 @@ JOp(o) ==
     [] o.op = "Withdraw"  -> [op |-> "SetWithdrawals", wds |-> <<[k |-> 6, amt_n |-> B(Lov(o.c))]>>]
     [] o.op = "Mint"      -> [op |-> "SetMint", mints |-> <<[mp |-> 9, n |-> <<66>>, amt |-> [neg |-> FALSE, mag_n |-> B(FromSmall(o.a))]]>>]
     [] o.op = "Burn"      -> [op |-> "SetMint", mints |-> <<[mp |-> 9, n |-> <<66>>, amt |-> [neg |-> TRUE, mag_n |-> B(FromSmall(o.a))]]>>]
+    [] o.op = "MintOut"   -> [op |-> "AddMintAssetAndOutput", mp |-> 9, n |-> <<66>>, amt |-> [neg |-> FALSE, mag_n |-> B(FromSmall(o.a))], to |-> [kind |-> "ent", k |-> 12], coin_n |-> B(Lov(o.c))]
     [] o.op = "Donate"    -> [op |-> "SetDonation", n |-> B(Lov(o.c))]
-\* Deposit and Refund both go through SetCerts, Mint and Burn through SetMint: the later call replaces the earlier one,
-\* so scenarios holding both are skipped (the model's Apply adds them up)
-Conflict == \E x, y \in (pending \cup {issued[i] : i \in 1..Len(issued)}) : {x.op, y.op} \in {{"Deposit", "Refund"}, {"Mint", "Burn"}}
+\* Deposit and Refund both go through SetCerts, Mint and Burn through SetMint: the later call replaces the earlier one (the
+\* model's Apply says the same), and MintOut adds to whatever mint is held at that moment - every order is a scenario
 Utxo == << [u |-> 1, addr |-> [kind |-> "ent", k |-> 1], value |-> [coin_n |-> B(Lov(3)), assets |-> <<>>]],
            [u |-> 2, addr |-> [kind |-> "base", k |-> 2], value |-> [coin_n |-> B(Lov(2500)), assets |-> Asset(5)]],
            [u |-> 3, addr |-> [kind |-> "byron", k |-> 3], value |-> [coin_n |-> B(Lov(1)), assets |-> <<>>]] >>
 PP == [a |-> 44, b |-> 155381, cpb |-> 4310, maxval |-> 5000, maxtx |-> 16384, kd_n |-> B(Lov(1)), pd_n |-> B(Lov(250)), prefer_pure_change |-> FALSE, no_burn |-> FALSE]
-EmitScn == (phase = "ops" /\ pending = {} /\ ~Conflict) =>
+EmitScn == (phase = "ops" /\ pending = {}) =>
    Emit([t |-> "SCN", pp |-> PP, utxo |-> Utxo,
          ops |-> [i \in 1..Len(issued) |-> JOp(issued[i])] \o <<[op |-> "AddChange", to |-> [kind |-> "ent", k |-> 15]], [op |-> "Build"], [op |-> "BuildAgain"]>>])
-StateConstraint == ~Conflict
+StateConstraint == TRUE
 ====
